@@ -8,6 +8,7 @@ import (
 	"fmt"
 	"hash/fnv"
 	"os"
+	"regexp"
 	"runtime"
 	"runtime/debug"
 	"sort"
@@ -197,6 +198,26 @@ func watchdog(idx int, seed uint64) (stop func()) {
 // RunSeed derives the seed of run idx.
 func RunSeed(master uint64, idx int) uint64 { return tape.Mix(master, uint64(idx)+1) }
 
+var (
+	traceStamp = regexp.MustCompile(`^\s*[0-9]+\.[0-9]+s `)
+	traceAdv   = regexp.MustCompile(`advance time by \S+ \(of (\S+): a goroutine reached a park point\)`)
+)
+
+// NormTrace is what the determinism check compares: the trace without simulated time
+// stamps and without the amount of an advance that was cut short. How far a cut-short
+// advance got depends on when a goroutine of a library (net/http's shutdown poll, with
+// jitter drawn from a random stream whose position depends on sync.Pool hits) reached its
+// next scheduling point; the order of events is what must be reproducible.
+func NormTrace(t []string) []string {
+	out := make([]string, len(t))
+	for i, l := range t {
+		l = traceStamp.ReplaceAllString(l, "")
+		l = traceAdv.ReplaceAllString(l, "advance time (of $1, cut short)")
+		out[i] = l
+	}
+	return out
+}
+
 func HashStrings(ss []string) uint64 {
 	h := fnv.New64a()
 	for _, s := range ss {
@@ -260,7 +281,7 @@ func Main(cfg Config, run RunFunc) {
 		if res.Oracle != "" {
 			sum.Failures = append(sum.Failures, Failure{RunIndex: rf.RunIndex, Seed: rf.Seed, Result: res, Tape: tp.Values(), Labels: labels(tp)})
 		}
-		sum.Log = append(sum.Log, fmt.Sprintf("%d %016x %s", rf.RunIndex, HashStrings(res.Trace), res.Oracle))
+		sum.Log = append(sum.Log, fmt.Sprintf("%d %016x %s", rf.RunIndex, HashStrings(NormTrace(res.Trace)), res.Oracle))
 		return
 	}
 
@@ -325,7 +346,7 @@ func Main(cfg Config, run RunFunc) {
 			os.WriteFile(fmt.Sprintf("%s/trace-%d.txt", td, idx), []byte(strings.Join(res.Trace, "\n")+"\n"), 0644)
 		}
 		if wantLog && idx < detN {
-			sum.Log = append(sum.Log, fmt.Sprintf("%d %016x %016x %s", idx, res.SchedHash, HashStrings(res.Trace), res.Oracle))
+			sum.Log = append(sum.Log, fmt.Sprintf("%d %016x %016x %s", idx, res.SchedHash, HashStrings(NormTrace(res.Trace)), res.Oracle))
 		}
 		if res.Sample != nil && len(sum.Samples) < 3 {
 			sum.Samples = append(sum.Samples, res.Sample)
